@@ -306,11 +306,11 @@ def strip_init(line):
         recs[0] = 'init # ' + recs[0].partition(' # ')[2]
     return recs
 
-def init_bits(model_line):
-    """`ti=` field of the model's record 0: one bit per document, result of the extracted tree_inv_b"""
+def init_bits(model_line, field='ti='):
+    """`ti=` (`pr=`) field of the model's record 0: one bit per document, result of the extracted tree_inv_b (printable_b)"""
     head = model_line.split(' | ')[0].partition(' # ')[0]
     for w in head.split(' '):
-        if w.startswith('ti='):
+        if w.startswith(field):
             return w[3:]
     return None
 
@@ -703,6 +703,9 @@ def analyse(cases, impl_lines, model_lines, summary, memo, tag):
             bits = init_bits(ml)
             if bits is None or '0' in bits:
                 summary['ti_fail'] += 1
+            bits = init_bits(ml, 'pr=')
+            if bits is None or '0' in bits:
+                summary['pr_fail'] = summary.get('pr_fail', 0) + 1
             i = first_mismatch(il, ml)
             if i is not None:
                 summary['mismatches'].append({'docs': docs, 'ops': [list(o) for o in ops[:i]], 'view': view, 'record': i, 'tag': tag})
